@@ -42,7 +42,7 @@ type Engine struct {
 	canon     map[string]string
 	reLits    map[string]string
 	loopLock  map[string]map[int]string // function key -> loop ordinal -> signature, recorded on the unchanged tree
-	localLock map[string]map[string]int // function key -> local name -> position among the function's locals
+	localLock map[string]map[string][]int // function key -> local name -> positions among the function's locals
 }
 
 func (e *Engine) note(format string, args ...interface{}) {
@@ -427,8 +427,8 @@ func loadLoopLock(path string) map[string]map[int]string {
 
 
 // loadLocalLock reads the "local" lines of contracts/loops.lock: "local\t<function key>\t<name>\t<position>".
-func loadLocalLock(path string) map[string]map[string]int {
-	out := map[string]map[string]int{}
+func loadLocalLock(path string) map[string]map[string][]int {
+	out := map[string]map[string][]int{}
 	data, err := os.ReadFile(path)
 	if err != nil {
 		return out
@@ -443,13 +443,9 @@ func loadLocalLock(path string) map[string]map[string]int {
 			continue
 		}
 		if out[f[1]] == nil {
-			out[f[1]] = map[string]int{}
+			out[f[1]] = map[string][]int{}
 		}
-		if _, dup := out[f[1]][f[2]]; !dup {
-			out[f[1]][f[2]] = n
-		} else {
-			out[f[1]][f[2]] = -1 // a name declared twice in the function is not re-bound
-		}
+		out[f[1]][f[2]] = append(out[f[1]][f[2]], n)
 	}
 	return out
 }
